@@ -503,11 +503,20 @@ pub fn args_for(sig: &Sig, flavour: Flavour, count: Num) -> Option<(String, Env)
     let mut bindings = String::new();
     let shorthand = matches!(flavour, Flavour::Tu | Flavour::TuDisplay);
     let mut env = Env { html_tags: true, empty_child_space: flavour.is_view(), ..Default::default() };
-    for v in sig.vars.keys() {
-        if sig.counts.contains_key(v) {
+    // "crossed" form (TdDisplay, Td): every argument expression is a local variable named like ANOTHER argument
+    // (`x = y, y = x` with `let x = <y's value>; let y = <x's value>;`): arguments are bound simultaneously
+    let plain_vars: Vec<&String> = sig.vars.keys().filter(|v| !sig.counts.contains_key(*v)).collect();
+    let crossed = matches!(flavour, Flavour::TdDisplay | Flavour::Td) && plain_vars.len() >= 2 && plain_vars.iter().all(|v| syn_ident_ok(v));
+    for (vi, v) in sig.vars.keys().filter(|v| !sig.counts.contains_key(*v)).enumerate() {
+        let val = format!("\u{ab}{v}\u{bb}");
+        if crossed {
+            // the local named like the NEXT argument holds this argument's value
+            let next = plain_vars[(vi + 1) % plain_vars.len()];
+            bindings.push_str(&format!("let {} = {}; ", ident(next), rust_str(&val)));
+            parts.push(format!("{} = {}", ident(v), ident(next)));
+            env.vars.insert(v.clone(), val);
             continue;
         }
-        let val = format!("\u{ab}{v}\u{bb}");
         if shorthand && syn_ident_ok(v) {
             bindings.push_str(&format!("let {} = {}; ", ident(v), rust_str(&val)));
             parts.push(ident(v));
